@@ -321,6 +321,7 @@ func c13Run(t *testing.T, cfg c13Config) c13Result {
 		d.Close()
 		ln.Close()
 		w.ServerTr.Close()
+		w.CloseEndpoints()
 		swg.Wait()
 		res.Datagrams = [2]int{w.Router.Count(sim.C2S), w.Router.Count(sim.S2C)}
 		res.Transcript = w.Router.Transcript()
